@@ -349,6 +349,11 @@ theorem C10_datediff_additive (u : DUnit) (a b c : Int × Int) :
     dateDiffYM u a c = dateDiffYM u a b + dateDiffYM u b c ∧ dateDiffYM u a b = -dateDiffYM u b a ∧ dateDiffYM u a a = 0 := by
   unfold dateDiffYM; omega
 
+/-- C10/sha2-nonliteral-size-answered — the model of `sha256` speaks about bare number literals (`Option Nat`); a size
+    written as any other expression (`-256`, `256 - 512`) reaches sqlglot's own SHA2 rendering, which answers with the
+    256-bit digest.  Recorded from the tie; the rule for literals is `C10_sha2`. -/
+theorem finding_sha2_nonliteral_size : sha2Rule .sha2 none = .hex256 ∧ sha2Rule .sha2 (some 224) = .passedOn := by decide
+
 /-! ### TRIM -/
 
 /-- TRIM(s) strips blanks -/
